@@ -87,6 +87,10 @@ func anchorMatches(ins ssa.Instruction, anchor string) bool {
 			}
 		}
 		return false
+	case "send":
+		// send : a channel send (arg(0) is the value sent)
+		_, ok := ins.(*ssa.Send)
+		return ok
 	case "mapupdate":
 		// mapupdate        : any map update
 		// mapupdate:<name> : update of the map held in field <name> / parameter or variable <name>
@@ -165,6 +169,9 @@ func (f *frame) checkAsserts(ins ssa.Instruction, in string, st *State) {
 		}
 		f.assertHit[i] = true
 		env := f.baseEnv(st)
+		if sd, isSend := ins.(*ssa.Send); isSend {
+			env.callArgs = []Val{f.val(sd.X)}
+		}
 		if ci, isCall := ins.(ssa.CallInstruction); isCall {
 			for _, a := range ci.Common().Args {
 				env.callArgs = append(env.callArgs, f.val(a))
